@@ -201,6 +201,82 @@ def rule_b(ctx):
 
 # ---- C09.c ----------------------------------------------------------------------------------
 
+def _fold_typed_eval(f, core, arr, single):
+    """Fold __call__ / inverse for a collection of points (shape (4, 2)) and a single point (shape (2,)): the result must be
+    <array type>(core(points as 2d array)) resp. <point type>(core(...)[0]).  Disagreements, or None outside the folding language."""
+    from ..fold import Folder, Obj, Opaque, Raised, Refuse, Sym
+
+    bad = []
+    for shape, wrap in (((4, 2), arr), ((2,), single)):
+        x = Obj("x", {"shape": shape, "ndim": len(shape)})
+        fo = Folder(symbolic=True)
+        fo.func_stack.append(f.node)
+        fo.fold_all_methods = True
+        made = {}
+
+        def asarray(a, k):
+            if not (a and isinstance(a[0], Obj) and "shape" in a[0].fields):
+                raise Refuse("asarray of an unknown value")
+            return Obj("xa", {"shape": a[0].fields["shape"], "ndim": len(a[0].fields["shape"]), "of": a[0]})
+
+        def atleast_2d(a, k):
+            if not (a and isinstance(a[0], Obj) and "shape" in a[0].fields):
+                raise Refuse("atleast_2d of an unknown value")
+            s_ = a[0].fields["shape"]
+            s2 = s_ if len(s_) >= 2 else (1,) * (2 - len(s_)) + tuple(s_)
+            made["x2d"] = Obj("x2d", {"shape": s2, "ndim": len(s2), "of": a[0]})
+            return made["x2d"]
+        fo.overrides = {"np.asarray": asarray, "np.atleast_2d": atleast_2d, "np.array": asarray}
+        selfo = Obj("self", {"__class__": "BaseTransformation", "input_dtype": Opaque("callable", "self.input_dtype"), "output_dtype": Opaque("callable", "self.output_dtype"),
+                             "input_array_dtype": Opaque("callable", "self.input_array_dtype"), "output_array_dtype": Opaque("callable", "self.output_array_dtype")})
+        try:
+            r = fo.call(f.node, [selfo, x])
+        except (Refuse, Raised):
+            return None
+        if not isinstance(r, Sym) or "x2d" not in made:
+            return None
+        inner = Sym(core, [made["x2d"]])
+        want = f"{wrap}({inner!r})" if len(shape) == 2 else f"{wrap}({inner!r}[0]())"
+        if repr(r) != want:
+            bad.append(f"{'collection of points' if len(shape) == 2 else 'single point'}: returns {r!r}, documented {want}")
+    return bad
+
+
+def _fold_set_dtype(sd):
+    """Fold set_dtype for every pair of point classes: ([table disagreements], [point-type disagreements]) or None."""
+    from ..fold import Folder, Obj, Opaque, Raised, Refuse
+
+    MAP = {"darsia.Coordinate": "darsia.CoordinateArray", "darsia.Voxel": "darsia.VoxelArray", "darsia.VoxelCenter": "darsia.VoxelCenterArray", "np.ndarray": "np.ndarray"}
+    kinds = list(MAP) + ["builtins.list"]
+    tab, pts = [], []
+    for a in kinds:
+        for b in kinds:
+            fo = Folder(symbolic=True)
+            fo.func_stack.append(sd.node)
+            fo.fold_all_methods = True
+            so = Obj("self", {"__class__": "BaseTransformation"})
+
+            def coll(label, kind, first_only=True):
+                return Obj(label, {"shape": (4, 2), "__getitem__": lambda x, k, kind=kind: Obj("pt", {"__type__": Opaque("callable", kind if x == [0] else "builtins.other")})})
+            try:
+                fo.call(sd.node, [so, coll("P", a), coll("Q", b)])
+            except Raised:
+                if a in MAP and b in MAP:
+                    tab.append(f"({a}, {b}): raises although both point classes are supported")
+                continue
+            except Refuse:
+                return None
+            if a not in MAP or b not in MAP:
+                tab.append(f"({a}, {b}): accepted although {'the source' if a not in MAP else 'the destination'} class is not a supported point class")
+                continue
+            got = {k: getattr(v, "label", repr(v)) for k, v in so.fields.items() if k.endswith("dtype")}
+            if (got.get("input_dtype"), got.get("output_dtype")) != (a, b):
+                pts.append(f"({a}, {b}): input_dtype={got.get('input_dtype')}, output_dtype={got.get('output_dtype')}")
+            elif (got.get("input_array_dtype"), got.get("output_array_dtype")) != (MAP[a], MAP[b]):
+                tab.append(f"({a}, {b}): input_array_dtype={got.get('input_array_dtype')}, output_array_dtype={got.get('output_array_dtype')}")
+    return tab, pts
+
+
 def rule_c(ctx):
     R = "C09.c"
     ctx.rule(R, "typed in/out conversion is symmetric: __call__ evaluates call_array and wraps in output_(array_)dtype, inverse evaluates "
@@ -212,10 +288,20 @@ def rule_c(ctx):
                                     ("BaseTransformation.inverse", "self.inverse_array", "self.input_array_dtype", "self.input_dtype")):
         f = m.func(TRA, name)
         ctx.instance(R)
+        sem = _fold_typed_eval(f, core, arr, single)
+        if sem is not None:
+            ctx.ob(R, f.qname, f"evaluates {core} and wraps the result in {arr} / {single}", not sem, "; ".join(sem), f.node, evidence=True)
+            continue
         calls = [norm(c.func) for c in ast.walk(f.node) if isinstance(c, ast.Call) and norm(c.func).startswith("self.") and norm(c.func).endswith("_array")]
         rets = [norm(r.value.func) for r in ast.walk(f.node) if isinstance(r, ast.Return) and isinstance(r.value, ast.Call)]
         ctx.ob(R, f.qname, f"evaluates {core} and wraps the result in {arr} / {single}", calls == [core] and rets == [arr, single], f"calls {calls}, returns {rets}", f.node)
     sd = m.func(TRA, "BaseTransformation.set_dtype")
+    sem = _fold_set_dtype(sd)
+    if sem is not None:
+        ctx.ob(R, sd.qname, "input and output tables are identical and map each point class to its Array class", not sem[0], "; ".join(sem[0][:3]), sd.node, evidence=True)
+        ctx.ob(R, sd.qname, "point types are taken from the first source / destination point", not sem[1], "; ".join(sem[1][:3]), sd.node, evidence=True)
+        ctx.floor(R, 2)
+        return
     tabs = {}
     for iff in sd.node.body:
         def sides(t):
@@ -243,6 +329,85 @@ def rule_c(ctx):
     src = {self_attr(s.targets[0]): norm(s.value) for s in sd.node.body if isinstance(s, ast.Assign) and self_attr(s.targets[0]) in ("input_dtype", "output_dtype")}
     ctx.ob(R, sd.qname, "point types are taken from the first source / destination point", src == {"input_dtype": f"type({sd.params[1]}[0])", "output_dtype": f"type({sd.params[2]}[0])"}, str(src), sd.node)
     ctx.floor(R, 2)
+
+
+def _fold_dst_metadata(f):
+    """Fold CoordinateTransformation.correct_metadata on an image whose metadata() is a known dict: the result keeps every entry
+    except dimensions / origin, which are those of coordinatesystem_dst.  Disagreements, or None outside the folding language."""
+    from ..fold import Folder, Obj, Opaque, Raised, Refuse
+
+    base = {k: Opaque("meta", k) for k in ("space_dim", "dimensions", "origin", "name", "series")}
+    dims, org = Opaque("list", "DST.dimensions"), Opaque("coord", "DST.origin")
+    image = Obj("image", {"metadata": lambda a, k: dict(base)})
+    so = Obj("self", {"coordinatesystem_dst": Obj("DST", {"dimensions": dims, "_coordinate_of_origin_voxel": org}),
+                      "coordinatesystem_src": Obj("SRC", {"dimensions": Opaque("list", "SRC.dimensions"), "_coordinate_of_origin_voxel": Opaque("coord", "SRC.origin")})})
+    fo = Folder(symbolic=True)
+    fo.func_stack.append(f.node)
+    fo.overrides = {"copy.copy": lambda a, k: dict(a[0]) if a and isinstance(a[0], dict) else a[0], "copy.deepcopy": lambda a, k: dict(a[0]) if a and isinstance(a[0], dict) else a[0]}
+    try:
+        r = fo.call(f.node, [so, image])
+    except (Refuse, Raised):
+        return None
+    if not isinstance(r, dict):
+        return None
+    bad = []
+    if r.get("dimensions") is not dims:
+        bad.append(f"dimensions = {r.get('dimensions')!r}")
+    if r.get("origin") is not org:
+        bad.append(f"origin = {r.get('origin')!r}")
+    other = [k for k in base if k not in ("dimensions", "origin") and r.get(k) is not base[k]]
+    if other or set(r) != set(base):
+        bad.append(f"entries {other or sorted(set(r) ^ set(base))} are not carried over from the source metadata")
+    return bad
+
+
+def _fold_warp(f):
+    """Fold TransformationCorrection.correct_array (2 space dimensions, no cache yet): one store into the returned array, whose index
+    tuple is voxels_dst[M, j] and whose value is array_src[(cache.voxels_src[M, j])_j] with the same M = cache.valid_voxels.
+    Disagreements (only where both masks can be read off), or None when the form is outside what the fold can compare."""
+    from ..fold import Arr, Folder, Obj, Opaque, Raised, Refuse, Sym
+
+    cs_src = Obj("CS_SRC", {"dim": 2, "shape": Opaque("tuple", "SHAPE_SRC")})
+    cs_dst = Obj("CS_DST", {"shape": (7, 9), "voxels": Opaque("VoxelArray", "VOX_DST")})
+    so = Obj("self", {"__class__": "TransformationCorrection", "coordinatesystem_src": cs_src, "coordinatesystem_dst": cs_dst,
+                      "transformation": Obj("T", {"input_dtype": Opaque("callable", "T.input_dtype")})})
+    src = Obj("SRC", {"shape": (5, 6, 3), "dtype": Opaque("dtype", "SRC.dtype"), "ndim": 3})
+    fo = Folder(symbolic=True)
+    fo.func_stack.append(f.node)
+    try:
+        r = fo.call(f.node, [so, src])
+    except (Refuse, Raised):
+        return None
+    sets = [t for t in fo.trace if isinstance(t, Sym) and t.fn == "setitem"]
+    cache = so.fields.get("cache")
+    if len(sets) != 1 or not isinstance(cache, Sym) or not {"voxels_src", "valid_voxels"} <= set(cache.kw):
+        return None
+    V, M = cache.kw["voxels_src"], cache.kw["valid_voxels"]
+    out, idx, val = sets[0].args
+    bad = []
+    if out is not r:
+        bad.append("the array that is stored into is not the array that is returned")
+    if not (isinstance(r, Arr) and tuple(r.shape) == (7, 9, 3)):
+        bad.append(f"the returned array has shape {getattr(r, 'shape', None)}, documented destination shape + source payload (7, 9, 3)")
+    if not (isinstance(idx, tuple) and len(idx) == 2 and all(isinstance(x, Sym) for x in idx) and isinstance(val, Sym)):
+        return None
+    masks = []
+    for j, x in enumerate(idx):
+        pre, suf = "VOX_DST[", f", {j}]"
+        if not (x.fn.startswith(pre) and x.fn.endswith(suf)):
+            return None
+        masks.append(x.fn[len(pre):-len(suf)])
+    want_src = lambda mk: f"SRC[{tuple(Sym(f'{V!r}[{mk}, {j}]') for j in range(2))!r}]"
+    if len(set(masks)) != 1:
+        bad.append("destination axes are selected with different masks")
+    elif val.fn == want_src(masks[0]):
+        if masks[0] != repr(M):
+            bad.append(f"the selection mask is {masks[0][:80]}, not the cached validity mask")
+    elif val.fn == want_src(repr(M)):
+        bad.append(f"source voxels are selected with the cached validity mask, destination voxels with {masks[0][:80]}")
+    else:
+        return None if not bad else bad
+    return bad
 
 
 # ---- C09.d ----------------------------------------------------------------------------------
@@ -284,7 +449,11 @@ def rule_d(ctx):
     if mk is not None:
         am.let("valid", mk_t)
     warp = am.has(f.node, f"array_dst[tuple((voxels_dst[self.cache.valid_voxels, j] for j in range(dim)))] = {arr}[tuple((self.cache.voxels_src[self.cache.valid_voxels, j] for j in range(dim)))]")
-    ctx.ob(R, f.qname, "the same mask selects destination voxels and source voxels in the assignment", warp is not None, "", f.node)
+    sem = _fold_warp(f) if warp is None else None
+    if sem is not None:
+        ctx.ob(R, f.qname, "the same mask selects destination voxels and source voxels in the assignment", not sem, "; ".join(sem), f.node, evidence=True)
+    else:
+        ctx.ob(R, f.qname, "the same mask selects destination voxels and source voxels in the assignment", warp is not None, "", f.node)
     alloc = False
     for shp in (f"(*self.coordinatesystem_dst.shape, *list({arr}.shape)[dim:])", f"(*self.coordinatesystem_dst.shape, *{arr}.shape[dim:])", f"(*self.coordinatesystem_dst.shape, *tuple({arr}.shape)[dim:])"):
         am_a = AM(f)
@@ -320,7 +489,11 @@ def rule_e(ctx):
     f = m.func(CTR, "CoordinateTransformation.correct_metadata")
     ctx.instance(R)
     st = {s.targets[0].slice.value: norm(s.value) for s in ast.walk(f.node) if isinstance(s, ast.Assign) and isinstance(s.targets[0], ast.Subscript) and isinstance(s.targets[0].slice, ast.Constant)}
-    ctx.ob(R, f.qname, "dimensions and origin come from coordinatesystem_dst", st == {"dimensions": "self.coordinatesystem_dst.dimensions", "origin": "self.coordinatesystem_dst._coordinate_of_origin_voxel"}, str(st), f.node)
+    sem = _fold_dst_metadata(f) if not st else None
+    if sem is not None:
+        ctx.ob(R, f.qname, "dimensions and origin come from coordinatesystem_dst", not sem, "; ".join(sem), f.node, evidence=True)
+    else:
+        ctx.ob(R, f.qname, "dimensions and origin come from coordinatesystem_dst", st == {"dimensions": "self.coordinatesystem_dst.dimensions", "origin": "self.coordinatesystem_dst._coordinate_of_origin_voxel"}, str(st), f.node)
     c = m.func(CTR, "CoordinateTransformation.__call__")
     p = c.params[1]
     rets = [norm(expand(c.node, r.value)) for r in ast.walk(c.node) if isinstance(r, ast.Return) and r.value is not None]
